@@ -1,5 +1,6 @@
 (* Entry points evaluated by the correspondence harness (props/C12.py). *)
 From PV Require Export C12.Spec.
+From Coq Require Uint63.
 
 Definition jv_list (l : list bytes) : jv := JL (map JB l).
 Definition jv_dict (d : list (bytes * bytes)) : jv := JL (map (fun kv => JL [JB (fst kv); JB (snd kv)]) d).
@@ -91,6 +92,40 @@ Definition run_live (c : cfg) (r : klive) : jv :=
   JL [ JL [JB (k_cmdline (lv_cmd r)); JB (k_environ (lv_env r)); JB (k_link (lv_exe r)); JB (k_link (lv_cwd r))];
        JL (map jv_res (run_ops c st0 (live_ops (view_live r))));
        (if wf_live r then JL (map jv_res (spec_live r)) else jnone) ].
+
+(* ---- digests: large values are compared through (count, 61-bit polynomial hash, first, last) *)
+(* machine integers (arithmetic modulo 2^63) only here, for speed of the harness digests; no theorem mentions them *)
+Definition hstep (a : Uint63.int) (b : Z) : Uint63.int :=
+  Uint63.add (Uint63.add (Uint63.mul a (Uint63.of_Z 1000003)) (Uint63.of_Z b)) (Uint63.of_Z 1).
+Definition hbytes (a : Uint63.int) (l : bytes) : Uint63.int := fold_left hstep l a.
+Definition hlist (ls : list bytes) : Uint63.int := fold_left (fun a l => hstep (hbytes a l) 256) ls (Uint63.of_Z 7).
+Definition dig_bytes (l : bytes) : jv := JL [JZ (Z.of_nat (length l)); JZ (Uint63.to_Z (hbytes (Uint63.of_Z 7) l))].
+Definition dig_list (ls : list bytes) : jv :=
+  JL [JZ (Z.of_nat (length ls)); JZ (Uint63.to_Z (hlist ls)); JB (firstn 64 (hd [] ls)); JB (firstn 64 (last ls []))].
+Definition dig_dict (d : list (bytes * bytes)) : jv :=
+  dig_list (map (fun kv => fst kv ++ 61 :: snd kv) d).
+
+(* a process with a large command line and environment (link withheld, cmdline()[0] executable) *)
+Definition big_proc (comm : bytes) (gs : list bgroup) : kproc :=
+  let argv := expand_args gs in
+  {| p_comm := comm; p_cmd := KArgv argv; p_exe := None; p_how := WENOENT; p_paths := [(hd [] argv, PRegX)] |}.
+Definition big_view (comm : bytes) (gs : list bgroup) (es : list egroup) : pview :=
+  let r := big_proc comm gs in
+  {| v_stat := Some false; v_stat_denied := false; v_comm := comm;
+     v_cmdline := FData (k_cmdline (p_cmd r));
+     v_environ := FData (k_environ {| e_items := expand_env 0 es; e_tail := ENone |});
+     v_exe := LENOENT; v_cwd := LENOENT; v_paths := p_paths r |}.
+Definition run_big (c : cfg) (comm : bytes) (gs : list bgroup) (es : list egroup) : jv :=
+  let r := big_proc comm gs in
+  let env := {| e_items := expand_env 0 es; e_tail := ENone |} in
+  let v := big_view comm gs es in
+  JL [ JL [dig_bytes (k_cmdline (p_cmd r)); dig_bytes (k_environ env)];
+       JL [jv_outcome dig_list (pl_cmdline c v); jv_outcome dig_dict (pl_environ c v);
+           jv_outcome JB (fe_name c v); jv_outcome JB (fst (fe_exe c None v))];
+       (if wf_proc r && wf_env env
+        then JL [JC "Val" [dig_list (spec_cmdline (p_cmd r))]; JC "Val" [dig_dict (spec_env (e_items env))];
+                 JC "Val" [JB (spec_name r)]; jv_outcome JB (spec_exe r)]
+        else jnone) ].
 
 (* the encoder *)
 Definition run_uenc (l : list Z) : jv := jopt JB (uencode l).
